@@ -2,6 +2,7 @@ import OtelVerif.Common.Line
 import OtelVerif.Model.C07
 import OtelVerif.Model.C07Map
 import OtelVerif.Model.C07Nest
+import OtelVerif.Model.C07Prim
 /-! driver for C07: model `c07-ptrslice` (heap model of generated pointer slices) -/
 open OtelVerif OtelVerif.Line OtelVerif.C07
 
@@ -298,6 +299,9 @@ def parseOp (s : N.St) (toks : List String) : Option N.Op :=
   | ["copylist", rs, ps, rd, pd] => do
     let rs ← rs.toNat?; let rd ← rd.toNat?
     some (.copyList rs (← resolveObj s rs (← parsePath ps)) rd (← resolveObj s rd (← parsePath pd)))
+  | ["moveappend", rs, ps, rd, pd, c] => do
+    let rs ← rs.toNat?; let rd ← rd.toNat?
+    some (.moveAppend rs (← resolveObj s rs (← parsePath ps)) rd (← resolveObj s rd (← parsePath pd)) (← kvNat [c] "cap"))
   | ["moveroot", a, b] => do some (.moveRoot (← a.toNat?) (← b.toNat?))
   | ["markro", r] => do some (.markRO (← r.toNat?))
   | _ => none
@@ -325,8 +329,69 @@ def handler : Handler DS where
 
 end NestD
 
+/-! ## model `c07-prim`: primitive slices -/
+namespace PrimD
+
+def parseOp (toks : List String) : Option P.Op :=
+  match toks with
+  | ["append", a, xs, c] => do some (.append (← a.toNat?) (← parseVals xs) (← kvNat [c] "cap"))
+  | ["setat", a, i, v] => do some (.setAt (← a.toNat?) (← i.toNat?) (← v.toNat?))
+  | ["ensurecap", a, n] => do some (.ensureCap (← a.toNat?) (← n.toNat?))
+  | ["fromraw", a, xs, c] => do some (.fromRaw (← a.toNat?) (← parseVals xs) (← kvNat [c] "cap"))
+  | ["copy", a, b, c] => do some (.copyTo (← a.toNat?) (← b.toNat?) (← kvNat [c] "cap"))
+  | ["move", a, b] => do some (.moveTo (← a.toNat?) (← b.toNat?))
+  | ["markro", a] => do some (.markRO (← a.toNat?))
+  | _ => none
+
+def opKind : P.Op → String
+  | .append .. => "append" | .setAt .. => "setat" | .ensureCap .. => "ensurecap" | .fromRaw .. => "fromraw"
+  | .copyTo .. => "copy" | .moveTo .. => "move" | .markRO .. => "markro"
+
+structure DS where
+  H : Nat := 0
+  m : P.St := P.St.init
+  impl : P.PSt := P.PSt.init
+  pending : Option P.Op := none
+  step : Nat := 0
+  fail : Option String := none
+
+def handler : Handler DS where
+  init := {}
+  onCase := fun s toks => { s with H := (kvNat toks "h").getD 0 }
+  onOp := fun s toks =>
+    match parseOp toks with
+    | some op =>
+      let (m', p) := P.step s.m op
+      let hs := (List.range s.H).map (fun a => s!"{showVals (m'.hd a).live}/{(m'.hd a).cap}")
+      ({ s with m := m', pending := some op, step := s.step + 1 },
+        ["obs " ++ (if p then "panic" else "ok") ++ " " ++ " ".intercalate hs])
+    | none => ({ s with pending := none }, ["obs bad-op"])
+  onObs := fun s toks =>
+    match s.pending, parseObs toks with
+    | some op, some (p, l) =>
+      let after : Nat → List Nat := fun a => l.getD a []
+      let ok := P.obsStep s.H s.impl op after p
+      let r := P.pstep s.impl op
+      let fail := match s.fail with
+        | some f => some f
+        | none => if ok then none else
+            let what := if r.2 != p then (if p then "unexpected-panic" else "missing-panic")
+              else if (List.range s.H).any (fun a => !(P.targets op).contains a && after a != s.impl.val a) then "changed-unrelated-value"
+              else "result-differs"
+            some s!"sig=C07/primslice/{opKind op}-{what} step={s.step} expected={(List.range s.H).map (fun a => showVals (r.1.val a))} got={l.map showVals}"
+      { s with impl := { val := after, ro := r.1.ro }, pending := none, fail := fail }
+    | _, none => { s with fail := s.fail <|> some "sig=C07/primslice/unparsable-observation" }
+    | none, _ => s
+  onEnd := fun s =>
+    match s.fail with
+    | some f => [s!"prop primvaluesem=FAIL {f}"]
+    | none => ["prop primvaluesem=ok"]
+
+end PrimD
+
 end OtelVerif.Drivers.C07
 
 def main : IO UInt32 :=
   runMulti [("c07-ptrslice", run OtelVerif.Drivers.C07.handler), ("c07-map", run OtelVerif.Drivers.C07.MapD.handler),
-    ("c07-nest", run OtelVerif.Drivers.C07.NestD.handler)]
+    ("c07-nest", run OtelVerif.Drivers.C07.NestD.handler),
+    ("c07-prim", run OtelVerif.Drivers.C07.PrimD.handler)]
